@@ -29,7 +29,9 @@
 (***************************************************************************)
 EXTENDS Integers, Sequences, FiniteSets, TLC, Json
 
-CONSTANTS MaxLen, Alpha, Mode, MaxSecs, Variety, Emit, EmitMod
+CONSTANTS MaxLen, Alpha, Mode, MaxSecs, Variety, Emit, EmitMod,
+          LateTypeFix     \* TRUE: the code of /repo (since 0432afd); FALSE: the behaviour before that fix, kept as a model-only
+                          \* regression domain (DocSphinx_oldlate.cfg) in which TLC must still find ParsesBack violated
 
 VARIABLES lines, expect, sig, pcand, pc, offset, desc, params, ptypes, attrs, atypes, excs, ret, rtype, sections, crash
 vars == <<lines, expect, sig, pcand, pc, offset, desc, params, ptypes, attrs, atypes, excs, ret, rtype, sections, crash>>
@@ -209,7 +211,9 @@ ReadParameterType ==     \* _read_parameter_type
      /\ IF Invalid(ln, c.body) \/ Parts(ln) # 2 THEN UNCHANGED <<ptypes, params>>
         ELSE /\ ptypes' = Append(ptypes, [name |-> name, tf |-> offset])
              /\ LET j == Find(params, name) IN
-                params' = IF j # 0 /\ params[j].ann = "none" THEN [params EXCEPT ![j].ann = "field", ![j].tf = offset] ELSE params
+                \* `param.annotation is None or "param:<name>" in annotated_from_parent`: the annotation is "sig" exactly while the
+                \* name is in annotated_from_parent (added when the signature supplied it, discarded when a type field overrides it)
+                params' = IF j # 0 /\ (params[j].ann = "none" \/ (LateTypeFix /\ params[j].ann = "sig")) THEN [params EXCEPT ![j].ann = "field", ![j].tf = offset] ELSE params
   /\ UNCHANGED <<input, pcand, desc, attrs, atypes, excs, ret, rtype>>
 
 \* _read_attribute: docstring.parent[name].annotation under suppress(AttributeError, KeyError, TypeError, ValueError,
@@ -230,7 +234,7 @@ ReadAttributeType ==     \* _read_attribute_type
      /\ IF Invalid(ln, c.body) \/ Parts(ln) # 2 THEN UNCHANGED <<atypes, attrs>>
         ELSE /\ atypes' = Append(atypes, [name |-> name, tf |-> offset])
              /\ LET j == Find(attrs, name) IN
-                attrs' = IF j # 0 /\ attrs[j].ann = "none" THEN [attrs EXCEPT ![j].ann = "field", ![j].tf = offset] ELSE attrs
+                attrs' = IF j # 0 /\ (attrs[j].ann = "none" \/ (LateTypeFix /\ attrs[j].ann = "sig")) THEN [attrs EXCEPT ![j].ann = "field", ![j].tf = offset] ELSE attrs
   /\ UNCHANGED <<input, pcand, desc, params, ptypes, excs, ret, rtype>>
 
 ReadException ==         \* _read_exception
@@ -296,19 +300,8 @@ PlainText == (Done /\ NoSyntax) => sections = <<SecRec("text", RStripBlank(SeqFr
 
 \* C13: per kind, the documented things with their names, type sources and description lines
 ParsesBack == (Mode = "struct" /\ Final) => (Done /\ sections = expect)
-\* known (findings.d/C13.json): a `:type x:` / `:vartype x:` line written AFTER its `:param x:` / `:var x:` loses to the annotation of
-\* the signature / parent attribute (the type field only fills an annotation that is still None) - the documented precedence
-\* "inline type, type field, signature" holds only when the type field comes first.  Everything else must be equal.
-LateTypeLost(x, y) == x.ann = "sig" /\ y.ann = "field" /\ y.tf > y.first
-SameBut(a, b) ==
-  /\ Len(a) = Len(b)
-  /\ \A j \in 1..Len(a) :
-       /\ a[j].kind = b[j].kind /\ a[j].tl = b[j].tl /\ Len(a[j].items) = Len(b[j].items)
-       /\ \A m \in 1..Len(a[j].items) : LET x == a[j].items[m] y == b[j].items[m] IN
-            \/ x = y
-            \/ (a[j].kind \in {"parameters", "attributes"} /\ LateTypeLost(x, y)
-                 /\ [x EXCEPT !.ann = y.ann, !.tf = y.tf] = y)
-ParsesBackBeyondKnown == (Mode = "struct" /\ Final) => (Done /\ SameBut(sections, expect))
+\* (fixed in /repo, 0432afd: a type field written AFTER its field used to lose to the signature annotation; with LateTypeFix = FALSE
+\* the machine still behaves that way and ParsesBack fails - DocSphinx_oldlate.cfg)
 
 \* every state is checked against the invariants; the replay harness gets the final states whose checksum is 0 mod EmitMod
 LineCode(ln) == (CASE ln.k = "blank" -> 1 [] ln.k = "text" -> 2 [] ln.k = "cont" -> 3 [] ln.k = "other" -> 5 [] OTHER -> 7)
